@@ -22,7 +22,12 @@ CHECKS = {'C01': {'level': 'exploration',
                  'merge into a row, write the same column of a row in another block, come back to the first row (merge, then perhaps a put) on a '
                  'column whose merge changes the length; the f15 exclusion is NOT applied in this check (it has no indexes, triggers, loggers or '
                  'replicas) | since round 7: DropColumn of a value column and its later re-creation under the same name (nothing of the former '
-                 'values may show), dropped index names that come back on another column / with another rule',
+                 'values may show), dropped index names that come back on another column / with another rule | TestC01DropInSweep: a DropColumn that '
+                 'lands in the middle of a commit, while the commit walks the column registry to clear deleted rows out of every column (DropColumn '
+                 'takes no lock; the harness performs it from a trigger callback that the walk itself calls, so the instant is owned without a '
+                 'second goroutine); the registry order of 2..5 value columns, 1..3 scratch columns and the trigger is drawn; oracle = plain model: '
+                 'every live row reads exactly what its own insert stored in every live column, Count, free offsets; non-trivial = a drop landed '
+                 'inside a delete sweep and a swept offset was re-used afterwards',
          'assumptions': ["values are in the documented domain (strings <= 65535 bytes; SetAny/SetMany values have the column's Go type)",
                          'writes target rows that are live when issued (writes to dead offsets are outside the property)',
                          'histories are bounded: <= 3 blocks (offsets < 49152), ~30 actions, <= 12 steps per transaction'],
@@ -34,7 +39,12 @@ CHECKS = {'C01': {'level': 'exploration',
                    {'run': '^TestC01Parallel$',
                     'checks': {'quick': 150, 'thorough': 3000},
                     'shards': {'quick': 1, 'thorough': 2},
-                    'timeout': {'quick': 900, 'thorough': 3400}}]},
+                    'timeout': {'quick': 900, 'thorough': 3400}},
+                   {'run': '^TestC01DropInSweep$',
+                    'checks': {'quick': 400, 'thorough': 20000},
+                    'shards': {'quick': 1, 'thorough': 8},
+                    'timeout': {'quick': 900, 'thorough': 3400},
+                    'env': {'GOMAXPROCS': 1}}]},
  'C02': {'level': 'exploration',
          'rule': 'model-based stateful histories in which every transaction draws its ending (commit / error after step k), may contain failing '
                  'inserts, deletes and key operations; oracles: (a) reference model after every transaction, (b) metamorphic twin collection that '
@@ -382,7 +392,13 @@ CHECKS = {'C01': {'level': 'exploration',
                  '(a step that makes no progress for 300 s ends the process with a WATCHDOG-VIOLATION line: with one goroutine at work that is a '
                  'lock which is never released); callbacks of operations on EXISTING rows may fail too (the call reports the error, the stores stay '
                  'buffered and commit); the harness record codec has an optional field that its decoder leaves alone when absent (like encoding/json '
-                 'with omitted fields); string columns may use a "set or append" merge that returns a sub-slice of its delta',
+                 'with omitted fields); string columns may use a "set or append" merge that returns a sub-slice of its delta | TestC11Orphans: '
+                 'DropColumn of a value column leaves its bitmap and sort indexes registered and queryable; histories of insert / delete / '
+                 'createIndex (bitmap, sort) / dropColumn / re-create column; per offset a generation counter; whatever an index whose column was '
+                 'dropped selects (txn.With, Row.Bool, txn.Ascend) must be a member frozen at the drop with an unchanged generation - a row inserted '
+                 'after the drop is never selected, also when it re-uses the offset of a member; indexes on live columns select exactly the rows '
+                 'whose own value satisfies the rule; non-trivial = an offset selected by an orphaned index at the drop was deleted, re-used and '
+                 'looked at through that index',
          'assumptions': ['free-parallel runs are not bit-reproducible: the replay re-runs the generated program (schedule left to the Go runtime)'],
          'tests': [{'run': '^TestC11$',
                     'checks': {'quick': 200, 'thorough': 2000},
@@ -407,7 +423,12 @@ CHECKS = {'C01': {'level': 'exploration',
                    {'run': '^TestC11Latched$',
                     'checks': {'quick': 300, 'thorough': 3000},
                     'shards': {'quick': 1, 'thorough': 2},
-                    'timeout': {'quick': 900, 'thorough': 3400}}]},
+                    'timeout': {'quick': 900, 'thorough': 3400}},
+                   {'run': '^TestC11Orphans$',
+                    'checks': {'quick': 400, 'thorough': 20000},
+                    'shards': {'quick': 1, 'thorough': 8},
+                    'timeout': {'quick': 900, 'thorough': 3400},
+                    'env': {'GOMAXPROCS': 1}}]},
  'C12': {'level': 'exploration',
          'rule': 'model-based stateful histories on keyed schemas: transactions of 1..8 steps over InsertKey/UpsertKey/QueryKey/DeleteKey/SetKey '
                  'with keys from a 6-key alphabet (forcing repeats, incl. the empty key), mixed with updates/deletes by offset, rollbacks, failing '
